@@ -7,6 +7,7 @@
 import Gozod.Drv.C07
 import Gozod.Model.FromJson
 import Gozod.Gen.KeywordTable
+import Gozod.Proofs.C11
 namespace Gozod.Drv.C11
 open Gozod.Jsc Gozod.Drv.C07
 
@@ -174,27 +175,16 @@ partial def why : JS → List String
     ++ (if types.contains .integer then ["integer-type"] else [])
     ++ (if decide (types.length > 1) && types.contains .null then ["nullable-union"] else [])
     ++ (if has "prefixItems" then ["tuple-items-all-required"] else [])
-    ++ (if hasProps && ks.any (fun k => match k with | .additionalProperties (.node _) => true | _ => false)
-        then ["catchall-on-strip-object"] else [])
-    ++ (let opt := ((ks.filterMap (fun k => match k with | .properties ps => some (jsProps ps) | _ => none)).headD []).filter
-              (fun kv => !req.contains kv.1)
-        let stays := opt.any (fun kv => match fromJS rejects false kv.2 with
-          | .ok s => (match makeOptional s with | .opt _ => false | _ => true)
-          | .error _ => false)
-        let nulls := opt.any (fun kv => match fromJS rejects false kv.2 with
-          | .ok s => (match makeOptional s with | .opt _ => true | _ => false)
-          | .error _ => false)
-        (if stays then ["optional-property-stays-required"] else [])
-        ++ (if nulls then ["optional-property-accepts-null"] else []))
+    ++ (if hasProps && propKeys.any (fun k => !req.contains k) then ["optional-property-accepts-null"] else [])
+    ++ (if !hasProps && has "additionalProperties" && !req.isEmpty then ["required-without-property"] else [])
+    ++ (if knownFmt && ["minLength", "maxLength", "pattern"].any has then ["format-siblings-dropped"] else [])
+    ++ (if ks.any (fun k => match k with | .enum vs => vs.contains .null | _ => false)
+        then ["nullable-union"] else [])
+    ++ (if ks.any (fun k => match k with | .other _ => true | .not _ => true | .propertyNames _ => true | _ => false)
+        then ["unmodelled-keyword"] else [])
     ++ (if types.contains .object && winner.isNone
           && !(ks.any (fun k => match k with | .additionalProperties (.bool false) => true | _ => false))
           && (hasProps || !(has "additionalProperties")) then ["open-object-closed"] else [])
-    ++ (if req.any (fun k => !propKeys.contains k) then ["required-without-property"] else [])
-    ++ (if knownFmt && ["minLength", "maxLength", "pattern"].any has then ["format-siblings-dropped"] else [])
-    ++ (if ks.any (fun k => match k with | .const .null => true | .enum vs => vs.contains .null && (allStrs vs).isNone | _ => false)
-        then ["literal-null-panics"] else [])
-    ++ (if ks.any (fun k => match k with | .other _ => true | .not _ => true | .propertyNames _ => true | _ => false)
-        then ["unmodelled-keyword"] else [])
     ++ (ks.map whyKw).flatten
 
 partial def whyKw : Kw → List String
@@ -228,6 +218,88 @@ partial def usesFormatKw : Kw → Bool
   | _ => false
 end
 
+/-! ### recognising the documents of the theorem's fragment (`J1.doc` images) -/
+
+def takeNat (name : String) : List Kw → Option Nat × List Kw
+  | .minLength n :: r => if name == "minLength" then (some n, r) else (none, .minLength n :: r)
+  | .maxLength n :: r => if name == "maxLength" then (some n, r) else (none, .maxLength n :: r)
+  | .minItems n :: r => if name == "minItems" then (some n, r) else (none, .minItems n :: r)
+  | .maxItems n :: r => if name == "maxItems" then (some n, r) else (none, .maxItems n :: r)
+  | l => (none, l)
+
+def takeInt (name : String) : List Kw → Option Int × List Kw
+  | .minimum q :: r => if name == "minimum" then (some q, r) else (none, .minimum q :: r)
+  | .maximum q :: r => if name == "maximum" then (some q, r) else (none, .maximum q :: r)
+  | .exclusiveMinimum q :: r => if name == "exclusiveMinimum" then (some q, r) else (none, .exclusiveMinimum q :: r)
+  | .exclusiveMaximum q :: r => if name == "exclusiveMaximum" then (some q, r) else (none, .exclusiveMaximum q :: r)
+  | .multipleOf q :: r => if name == "multipleOf" then (some q, r) else (none, .multipleOf q :: r)
+  | l => (none, l)
+
+def j1ListOf : List J1 → J1List
+  | [] => .nil
+  | d :: ds => .cons d (j1ListOf ds)
+
+def j1PropsOf : List (Str × J1) → J1Props
+  | [] => .nil
+  | (k, d) :: r => .cons k d (j1PropsOf r)
+
+partial def toJ1? : JS → Option J1
+  | .bool true => some .tru
+  | .bool false => some .fls
+  | .node kws =>
+    match kwList kws with
+    | [] => some .any
+    | [.type .boolean] => some .bool
+    | [.type .null] => some .null
+    | [.type .string, .format n g] => some (.fmt n g)
+    | .type .string :: r =>
+      let (mn, r) := takeNat "minLength" r
+      let (mx, r) := takeNat "maxLength" r
+      match r with
+      | [] => some (.str mn mx none)
+      | [.pattern p] => some (.str mn mx (some p))
+      | _ => none
+    | .type .number :: r =>
+      let (mn, r) := takeInt "minimum" r
+      let (mx, r) := takeInt "maximum" r
+      let (emn, r) := takeInt "exclusiveMinimum" r
+      let (emx, r) := takeInt "exclusiveMaximum" r
+      let (mul, r) := takeInt "multipleOf" r
+      if r.isEmpty then some (.num mn mx emn emx mul) else none
+    | [.type .array, .prefixItems js, .minItems n, .maxItems m] =>
+      if n == (jsList js).length && m == n then (jsList js).mapM toJ1? |>.map (fun ds => .tup (j1ListOf ds)) else none
+    | .type .array :: .items j :: r =>
+      let (mn, r) := takeNat "minItems" r
+      let (mx, r) := takeNat "maxItems" r
+      if r.isEmpty then (toJ1? j).map (fun it => .arr it mn mx) else none
+    | .type .object :: .properties ps :: .required req :: r =>
+      let kvs := jsProps ps
+      if req != kvs.map (·.1) then none else
+      match kvs.mapM (fun kv => (toJ1? kv.2).map (fun d => (kv.1, d))) with
+      | none => none
+      | some props =>
+        match r with
+        | [] => some (.obj (j1PropsOf props) false)
+        | [.additionalProperties (.bool false)] => some (.obj (j1PropsOf props) true)
+        | [.additionalProperties j] => (toJ1? j).map (fun ca => .objC (j1PropsOf props) ca)
+        | _ => none
+    | [.type .object, .additionalProperties j] => (toJ1? j).map .rcd
+    | [.const p] => some (.const p)
+    | [.enum vs] => match allStrs vs with
+      | some strs => some (.enumS strs)
+      | none => some (.enumP vs)
+    | [.anyOf js] => (jsList js).mapM toJ1? |>.map (fun ds => .anyOf (j1ListOf ds))
+    | [.oneOf js] => (jsList js).mapM toJ1? |>.map (fun ds => .oneOf (j1ListOf ds))
+    | [.allOf (.cons a (.cons b .nil))] => do pure (.allOf2 (← toJ1? a) (← toJ1? b))
+    | [.ref j] => (toJ1? j).map .ref
+    | _ => none
+
+/-- the case lies in the fragment of `c11_equiv_partial` (and of `c11_roundtrip`). -/
+def inFragment (d : JS) : Bool × Bool :=
+  match toJ1? d with
+  | some j => (good j, good j && Gozod.C11.rt j)
+  | none => (false, false)
+
 def handle : List String → String
   | ["kw", k] =>
     match Gozod.Gen.keywordTable.find? (fun r => r.kw == k) with
@@ -244,7 +316,12 @@ def handle : List String → String
       | some (x, []) =>
         match fromJS rejects false d with
         | .ok s =>
-          let rs := dedup (why d ++ instReasons x)
+          let rs0 := dedup (why d ++ instReasons x)
+          let (inEq, inRt) := inFragment d
+          let inst := instOK x
+          -- IN-EQ / IN-RT: the theorem's hypotheses hold for this case; then no finding class may apply
+          let rs := (if inEq && inst then ["IN-EQ"] else []) ++ (if inRt && inst then ["IN-RT"] else [])
+            ++ (if inEq && inst && !(rs0.all (fun r => r == "open-object-closed")) then ["INCOHERENT"] else []) ++ rs0
           b2s (acceptsDecoded s x) ++ " " ++ b2s (jsValid d x) ++ " "
             ++ (if usesFormat d then "~" else b2s (jsValid (toDoc s) x))
             ++ "\t" ++ ",".intercalate rs
